@@ -66,3 +66,7 @@ TECHNIQUE["C10"] = "deterministic simulation of imaginary-time / thermal job his
 LEVEL_TEXT["C08"] = "optimize_mps on generated models and sectors with generated sweep schedules (1-/2-site, direct / Davidson forced through a cut-off knob, 1-4 roots, omega targeting, stacked operators), under Davidson early stops, LAPACK failures in the blocked SVD and arbitrary RNG positions: every reported value of every sweep obeys the Poincare bound against sector-restricted exact diagonalisation, returned states are normalised, in the sector and within the bond limits, and energies coincide with exact diagonalisation when the guess spans the sector, the limit reaches the sector ranks and the schedule converged."
 LEVEL_NOTE["C08"] = _CHAIN_NOTE + " Bound tolerance 1e-9*||H|| for direct diagonalisation, 1e-6*||H|| when Davidson ran (single-pass Gram-Schmidt). The knob never pushes Davidson below a symmetry-masked local dimension of 24 (it keeps 12+nroots vectors)."
 TECHNIQUE["C08"] = "deterministic simulation of optimisation histories with eigensolver/LAPACK fault injection against exact diagonalisation"
+
+LEVEL_TEXT["C17"] = "(a) random symmetric one-/two-electron integrals (1-3 spatial orbitals, sparse/vanishing blocks, stacked/flat, with/without quantum numbers) through int_to_h + qc_model + Mpo against a second-quantised matrix assembled from the harness's own anticommuting operators, Hermiticity and [H,N_alpha]=[H,N_beta]=0; (b) swap SCHEDULES: optimize_mps and two-site TDVP with on-the-fly swapping under the natural criteria (OFS-S/D/D-S/debug) and under scheduler-forced legal decisions (SimSwap), plus direct try_swap_site sequences: afterwards the re-ordered operator equals the original in the new order (fermionic sign map for Jordan-Wigner models, checked against two independent references), energies obey the variational bound of the unchanged spectrum, the state permuted back follows the un-swapped exact trajectory."
+LEVEL_NOTE["C17"] = _CHAIN_NOTE + " Swapping is only offered for plain Model objects with single-DoF sites, a two-site method and the fixed criterion (library preconditions)."
+TECHNIQUE["C17"] = "deterministic simulation of swap schedules (natural + scheduler-forced decisions) against fermionic / permutation reference models"
